@@ -17,3 +17,15 @@ def lemma_csum_mono(a, b):
     """csum(a) <= csum(b) for 0 <= a <= b <= nf (induction on b; data sections have non-negative length)."""
     if b > a:
         lemma_csum_mono(a, b - 1)
+
+
+def lemma_rsum(A, nc, T, n):
+    """np.sum of the contiguous slice [nc*T, nc*T+n) is the row sum rsum(A, nc, T, n) (induction on n)."""
+    if n > 0:
+        lemma_rsum(A, nc, T, n - 1)
+
+
+def lemma_colsum_split(A, nc, c, T0, n, m):
+    """colsum over n+m samples = colsum over the first n + colsum over the next m (induction on m)."""
+    if m > 0:
+        lemma_colsum_split(A, nc, c, T0, n, m - 1)
